@@ -291,6 +291,25 @@ def check_lenient(case, ctx):
             ctx.count("lenient_rejected:" + name)
 
 
+# ------------------------------------------------------------------------------------ first use from several threads
+def _cold_build(it):
+    from vlib.cold import enc
+    kind, k, compressed, testnet = it
+    k32 = k.to_bytes(32, "big")
+    pt = secp.mul_g(k)
+    wif = b58.encode_check((b"\xef" if testnet else b"\x80") + k32 + (b"\x01" if compressed else b""))
+    if kind == "wif":
+        return (["keys", "PrivateKey", [{"hex": k32.hex()}], [["wif", [compressed, testnet]]]], wif, "PrivateKey(k).wif(%s, %s)" % (compressed, testnet))
+    if kind == "from_wif":
+        return (["keys", "PrivateKey.from_wif", [wif], [["__bytes__", []]]], enc(k32), "bytes(PrivateKey.from_wif(%s))" % wif)
+    if kind == "sec":
+        return (["keys", "PrivateKey", [{"hex": k32.hex()}], [["K", []], ["sec", [compressed]]]],
+                enc(secp.ser_c(pt) if compressed else secp.ser_u(pt)), "PrivateKey(k).K.sec(%s)" % compressed)
+    src = secp.ser_u(pt) if compressed else secp.ser_c(pt)
+    return (["keys", "PublicKey.parse", [{"hex": src.hex()}], [["sec", [compressed]]]],
+            enc(secp.ser_c(pt) if compressed else secp.ser_u(pt)), "PublicKey.parse(<other form>).sec(%s)" % compressed)
+
+
 def clauses():
     return [
         Clause("valid", check_valid,
@@ -319,4 +338,7 @@ def clauses():
                "hybrid/raw encodings of valid points: outcome counted only (must denote the same point when accepted)",
                gen=gen_hybrid, nontrivial=lambda c: True, n={"quick": 100, "thorough": 2000},
                shards={"quick": 2, "thorough": 4}),
+        __import__("vlib.cold", fromlist=["x"]).cold_clause(
+            "C09", st.tuples(st.sampled_from(["wif", "from_wif", "sec", "parse"]), S.scalars(), st.booleans(), st.booleans()),
+            _cold_build, "WIF encode / decode, SEC encode / parse"),
     ]
